@@ -5,3 +5,9 @@ CONSTANTS
  Depth = 3
 INIT InitFold
 NEXT EvalGen
+INVARIANT FoldEnds
+INVARIANT FoldCalls
+INVARIANT DefaultOnlyIfEmpty
+INVARIANT LeftNested
+INVARIANT TsFoldIsReduce
+INVARIANT IndexFoldIsJoint
